@@ -1,0 +1,23 @@
+//! Verification hooks (compiled only with `--cfg mdk_verif`).
+//!
+//! H1: lets a verification harness fix the wrapper timestamp and the leading
+//! byte of the wrapper event id of kind-445 events built by this thread, so
+//! that MIP-03 ordering (timestamp, then event id) is decided by a schedule
+//! instead of the wall clock and a random ephemeral key.
+
+use std::cell::Cell;
+
+thread_local! {
+    static WRAPPER_OVERRIDE: Cell<Option<(u64, Option<u8>)>> = const { Cell::new(None) };
+}
+
+/// Set (or clear with `None`) the override for events built on this thread:
+/// `(created_at_secs, optional leading byte of the event id)`.
+pub fn set_wrapper_override(v: Option<(u64, Option<u8>)>) {
+    WRAPPER_OVERRIDE.with(|c| c.set(v));
+}
+
+/// Current override for this thread.
+pub fn wrapper_override() -> Option<(u64, Option<u8>)> {
+    WRAPPER_OVERRIDE.with(|c| c.get())
+}
